@@ -6,25 +6,21 @@ Import ListNotations.
 Definition ser_matrix (m : list (list bool)) : tree := ser_list (ser_list ser_bool) m.
 Definition ser_result {A} (f : A -> tree) (r : result A) : tree :=
   match r with Ok a => Nd [L 0%Z; f a] | Err c => Nd [L 1%Z; L c] end.
-Definition ser_online (o : list (list bool) * bool) : tree := Nd [ser_matrix (fst o); ser_bool (snd o)].
 
 Definition cfg (steps : Z) (dt freq : PrimFloat.float) (refrac : option PrimFloat.float) (comp : bool) : config FN :=
   mkConfig FN steps dt freq refrac comp.
 
 (* encoder classes *)
 Definition run_hpe_offline c xs draws : tree := ser_result ser_matrix (hpe_offline FN c xs draws).
-Definition run_hpe_online shape c xs draws0 draws : tree :=
-  Nd [ser_result ser_online (hpe_online FN true shape c xs draws0 draws);
-      ser_result ser_online (hpe_online FN false shape c xs draws0 draws)].
+Definition run_hpe_online c xs draws0 draws : tree := ser_result ser_matrix (hpe_online FN c xs draws0 draws).
 Definition run_pie_offline c xs draws : tree := ser_result ser_matrix (pie_offline FN c xs draws).
-Definition run_pie_online c xs draws0 draws : tree := ser_result ser_online (pie_online FN c xs draws0 draws).
+Definition run_pie_online c xs draws0 draws : tree := ser_result ser_matrix (pie_online FN c xs draws0 draws).
 Definition run_hpa c xs : tree := ser_result (ser_list ser_float) (hpa_probs FN c xs).
 
 (* functional encoders called directly (refrac may be None here) *)
 Definition run_f_exp_offline (steps : nat) dt refrac comp inps draws : tree :=
   ser_result ser_matrix (exp_offline FN steps dt refrac comp inps draws).
-Definition run_f_exp_online shape (steps : nat) dt refrac comp inps draws0 draws : tree :=
-  Nd [ser_online (exp_online_coded FN shape steps dt refrac comp inps draws0 draws);
-      ser_online (exp_online_elemwise FN steps dt refrac comp inps draws0 draws)].
+Definition run_f_exp_online (steps : nat) dt refrac comp inps draws0 draws : tree :=
+  ser_matrix (exp_online FN steps dt refrac comp inps draws0 draws).
 Definition run_f_inhomog dt (inps : list (list PrimFloat.float)) : tree :=
   ser_list (ser_list ser_float) (map (map (bern_prob FN dt)) inps).
